@@ -49,5 +49,5 @@ func (w *KeyWrapper) UnwrapKey(data []byte, opts any) ([]byte, error) {
 }
 
 func (w *KeyWrapper) DeriveKey(opts any) (cek, encryptedCEK []byte, err error) {
-	return []byte{}, w.cek, nil
+	return w.cek, []byte{}, nil
 }
